@@ -26,6 +26,9 @@ type Obligation struct {
 	Note    string
 	// ExpectSat marks vacuity guards: the query Guard (without negated goal) must be satisfiable.
 	ExpectSat bool
+	// Parts: the obligation is the conjunction of these sub-obligations (one per return site);
+	// it is discharged iff every part is. Names stay stable when return sites are added or removed.
+	Parts []*Obligation
 }
 
 // Exec verifies one top-level function.
@@ -92,6 +95,7 @@ type Frame struct {
 	top    bool
 	loops  map[*ssa.BasicBlock]*loopInfo
 	free   []Val
+	rets   []retInfo
 	// per-block bookkeeping
 	outSt    map[*ssa.BasicBlock]*State
 	edgeCond map[[2]int]*smt.Term
@@ -340,6 +344,26 @@ func (ex *Exec) Run() {
 			nlab++
 			label = fmt.Sprintf("ensures%d", nlab)
 		}
+		if len(fr.rets) > 1 {
+			// one sub-obligation per return site (smaller queries than the merged exit state)
+			var parts []*Obligation
+			for _, ri := range fr.rets {
+				penv := ex.envFor(fr, ri.st, ex.entrySt, nil)
+				for i, p := range fn.Params {
+					penv.vars[p.Name()] = args[i]
+				}
+				ex.bindResults(penv, fn, ri.vals)
+				g := ex.evalBool(penv, cl.E, cl)
+				parts = append(parts, &Obligation{Kind: "post", Guard: ri.reach, Goal: g, NAssume: len(ex.assumes)})
+			}
+			ex.obligeAlways("post", label, reach, c.True(), fn.Pos())
+			ex.Obls[len(ex.Obls)-1].Parts = parts
+			for _, pt := range parts {
+				pt.Name = ex.Obls[len(ex.Obls)-1].Name
+				pt.Pos = ex.Obls[len(ex.Obls)-1].Pos
+			}
+			continue
+		}
 		goal := ex.evalBool(env, cl.E, cl)
 		ex.obligeAlways("post", label, reach, goal, fn.Pos())
 	}
@@ -364,11 +388,16 @@ func (ex *Exec) obligeAlways(kind, anchor string, guard, goal *smt.Term, pos tok
 
 func (ex *Exec) bindResults(env *CEnv, fn *ssa.Function, rets []Val) {
 	res := fn.Signature.Results()
+	if env.boundNames == nil {
+		env.boundNames = map[string]bool{}
+	}
 	if len(rets) == 1 {
 		env.vars["result"] = rets[0]
+		env.boundNames["result"] = true
 	}
 	for i, r := range rets {
 		env.vars[fmt.Sprintf("result%d", i)] = r
+		env.boundNames[fmt.Sprintf("result%d", i)] = true
 		if i < res.Len() && res.At(i).Name() != "" && res.At(i).Name() != "_" {
 			if _, clash := env.vars[res.At(i).Name()]; !clash {
 				env.vars[res.At(i).Name()] = r
@@ -431,10 +460,10 @@ func (ex *Exec) newFrame(fn *ssa.Function, prefix string, fc *FuncContract, pc *
 	fr.loops = findLoops(fn)
 	if fc != nil {
 		for _, cl := range fc.Clauses {
-			if cl.Loop > 0 {
-				found := false
+			if cl.Loop != 0 {
+				found := cl.Loop == -1
 				for _, li := range fr.loops {
-					if li.ordinal == cl.Loop {
+					if li.ordinal == cl.Loop || cl.Loop == -1 {
 						found = true
 						switch cl.Kind {
 						case "invariant":
@@ -650,6 +679,7 @@ func (ex *Exec) runFrame(fr *Frame, args []Val, st0 *State, reach0 *smt.Term) ([
 		}
 		fr.outSt[b] = st
 	}
+	fr.rets = rets
 	if len(rets) == 0 {
 		return nil, nil, c.False()
 	}
